@@ -1,0 +1,16 @@
+//go:build verif
+
+package hsmsss
+
+// This file exists only under the "verif" build tag: it exposes the two pure linktest accounting
+// functions to the external deterministic-simulation harness (supporting check of property C19).
+
+// VerifLinktestFailureStep exposes linktestFailureStep.
+func VerifLinktestFailureStep(suppress bool, recvNow, sentAt, inflight int64, fails int, recvAtLastFail int64) (int, int64, bool) {
+	return linktestFailureStep(suppress, recvNow, sentAt, inflight, fails, recvAtLastFail)
+}
+
+// VerifLinktestDisconnectRecheck exposes linktestDisconnectRecheck.
+func VerifLinktestDisconnectRecheck(suppress bool, inflight, recvNow, sentAt int64) bool {
+	return linktestDisconnectRecheck(suppress, inflight, recvNow, sentAt)
+}
